@@ -11,6 +11,8 @@ package main
 //       hand / seq                  hand-built *geojson.Geometry values; sequences of documents decoded into
 //                                   one receiver ("receiver history must not matter") — c02_seq.go
 //       bbox                        geojson/bbox.go: NewBBox, Valid, Bound
+//       hook / own / val            the documented JSON hooks installed; returned / input buffers belong to the
+//                                   caller; every form of holding a value (pointer, value, containers) — c02_wb.go
 //       hostile                     arbitrary bytes through every decoder incl. the six typed helper types
 //
 // Tree tokens (prefix form):   n | t | f | d <16hex> | s x<hex utf8> | a <n> tree* | o <n> (x<hex> tree)*
@@ -816,47 +818,47 @@ func c02Geom(g orb.Geometry) string {
 	var jb, bb []byte
 	var jerr, berr error
 	parts := make([]string, 0, 7)
-	parts = append(parts, guard(func() string {
+	parts = append(parts, gp("mj", func() string {
 		jb, jerr = geojson.NewGeometry(g).MarshalJSON()
 		return jsonTreeTok(jb, jerr)
 	}))
 	if jerr == nil && jb != nil {
 		var g1 *geojson.Geometry
-		ug := guard(func() string {
+		ug := gp("ug", func() string {
 			var err error
 			g1, err = geojson.UnmarshalGeometry(jb)
 			return geometryOutcome(g1, err)
 		})
 		var g2 *geojson.Geometry
 		ok2 := false
-		ugp := guard(func() string {
+		ugp := gp("ugp", func() string {
 			err := json.Unmarshal(jb, &g2)
 			ok2 = err == nil
 			return geometryOutcome(g2, err)
 		})
 		rm := "na"
 		if strings.HasPrefix(ug, "ok") {
-			rm = guard(func() string { b, err := json.Marshal(g1); return sameFlag(jb, b, err) })
+			rm = gp("rm", func() string { b, err := json.Marshal(g1); return sameFlag(jb, b, err) })
 		} else if ok2 {
-			rm = guard(func() string { b, err := json.Marshal(g2); return sameFlag(jb, b, err) })
+			rm = gp("rm", func() string { b, err := json.Marshal(g2); return sameFlag(jb, b, err) })
 		}
 		parts = append(parts, ug, ugp, rm)
 	} else {
 		parts = append(parts, "na", "na", "na")
 	}
-	parts = append(parts, guard(func() string {
+	parts = append(parts, gp("b", func() string {
 		bb, berr = bson.Marshal(geojson.NewGeometry(g))
 		return bsonTreeTok(bb, berr)
 	}))
 	if berr == nil && bb != nil {
 		g3 := &geojson.Geometry{}
-		ub := guard(func() string {
+		ub := gp("ub", func() string {
 			err := bson.Unmarshal(bb, g3)
 			return geometryOutcome(g3, err)
 		})
 		rm := "na"
 		if strings.HasPrefix(ub, "ok") {
-			rm = guard(func() string { b, err := bson.Marshal(g3); return bsonSame(bb, b, err) })
+			rm = gp("brm", func() string { b, err := bson.Marshal(g3); return bsonSame(bb, b, err) })
 		}
 		parts = append(parts, ub, rm)
 	} else {
@@ -909,15 +911,15 @@ func c02Typed(g orb.Geometry) string {
 	var jb, bb []byte
 	var jerr, berr error
 	parts := []string{}
-	parts = append(parts, guard(func() string { jb, jerr = json.Marshal(v); return jsonTreeTok(jb, jerr) }))
+	parts = append(parts, gp("mj", func() string { jb, jerr = json.Marshal(v); return jsonTreeTok(jb, jerr) }))
 	if jerr == nil && jb != nil {
-		parts = append(parts, guard(func() string { return out(back(true, jb)) }))
+		parts = append(parts, gp("uj", func() string { return out(back(true, jb)) }))
 	} else {
 		parts = append(parts, "na")
 	}
-	parts = append(parts, guard(func() string { bb, berr = bson.Marshal(v); return bsonTreeTok(bb, berr) }))
+	parts = append(parts, gp("b", func() string { bb, berr = bson.Marshal(v); return bsonTreeTok(bb, berr) }))
 	if berr == nil && bb != nil {
-		parts = append(parts, guard(func() string { return out(back(false, bb)) }))
+		parts = append(parts, gp("ub", func() string { return out(back(false, bb)) }))
 	} else {
 		parts = append(parts, "na")
 	}
@@ -928,31 +930,31 @@ func c02Feature(f *geojson.Feature) string {
 	var jb, bb []byte
 	var jerr, berr error
 	parts := make([]string, 0, 7)
-	parts = append(parts, guard(func() string { jb, jerr = json.Marshal(f); return jsonTreeTok(jb, jerr) }))
+	parts = append(parts, gp("mj", func() string { jb, jerr = json.Marshal(f); return jsonTreeTok(jb, jerr) }))
 	if jerr == nil && jb != nil {
 		var f1 *geojson.Feature
-		uf := guard(func() string {
+		uf := gp("uf", func() string {
 			var err error
 			f1, err = geojson.UnmarshalFeature(jb)
 			return featureOutcome(f1, err)
 		})
 		var f2 *geojson.Feature
-		ufp := guard(func() string { err := json.Unmarshal(jb, &f2); return featureOutcome(f2, err) })
+		ufp := gp("ufp", func() string { err := json.Unmarshal(jb, &f2); return featureOutcome(f2, err) })
 		rm := "na"
 		if strings.HasPrefix(uf, "ok") {
-			rm = guard(func() string { b, err := json.Marshal(f1); return sameFlag(jb, b, err) })
+			rm = gp("rm", func() string { b, err := json.Marshal(f1); return sameFlag(jb, b, err) })
 		}
 		parts = append(parts, uf, ufp, rm)
 	} else {
 		parts = append(parts, "na", "na", "na")
 	}
-	parts = append(parts, guard(func() string { bb, berr = bson.Marshal(f); return bsonTreeTok(bb, berr) }))
+	parts = append(parts, gp("b", func() string { bb, berr = bson.Marshal(f); return bsonTreeTok(bb, berr) }))
 	if berr == nil && bb != nil {
 		f3 := &geojson.Feature{}
-		ub := guard(func() string { err := bson.Unmarshal(bb, f3); return featureOutcome(f3, err) })
+		ub := gp("ub", func() string { err := bson.Unmarshal(bb, f3); return featureOutcome(f3, err) })
 		rm := "na"
 		if strings.HasPrefix(ub, "ok") {
-			rm = guard(func() string { b, err := bson.Marshal(f3); return bsonSame(bb, b, err) })
+			rm = gp("brm", func() string { b, err := bson.Marshal(f3); return bsonSame(bb, b, err) })
 		}
 		parts = append(parts, ub, rm)
 	} else {
@@ -967,32 +969,32 @@ func c02FC(fc *geojson.FeatureCollection) string {
 	parts := make([]string, 0, 8)
 	// newFeatureCollectionDoc works on a CLONE of ExtraMembers: marshalling must leave the caller's map alone
 	emBefore := propsTok(fc.ExtraMembers)
-	parts = append(parts, guard(func() string { jb, jerr = json.Marshal(fc); return jsonTreeTok(jb, jerr) }))
+	parts = append(parts, gp("mj", func() string { jb, jerr = json.Marshal(fc); return jsonTreeTok(jb, jerr) }))
 	emAfterJSON := propsTok(fc.ExtraMembers)
 	if jerr == nil && jb != nil {
 		var f1 *geojson.FeatureCollection
-		uf := guard(func() string {
+		uf := gp("uf", func() string {
 			var err error
 			f1, err = geojson.UnmarshalFeatureCollection(jb)
 			return fcOutcome(f1, err)
 		})
 		var f2 *geojson.FeatureCollection
-		ufp := guard(func() string { err := json.Unmarshal(jb, &f2); return fcOutcome(f2, err) })
+		ufp := gp("ufp", func() string { err := json.Unmarshal(jb, &f2); return fcOutcome(f2, err) })
 		rm := "na"
 		if strings.HasPrefix(uf, "ok") {
-			rm = guard(func() string { b, err := json.Marshal(f1); return sameFlag(jb, b, err) })
+			rm = gp("rm", func() string { b, err := json.Marshal(f1); return sameFlag(jb, b, err) })
 		}
 		parts = append(parts, uf, ufp, rm)
 	} else {
 		parts = append(parts, "na", "na", "na")
 	}
-	parts = append(parts, guard(func() string { bb, berr = bson.Marshal(fc); return bsonTreeTok(bb, berr) }))
+	parts = append(parts, gp("b", func() string { bb, berr = bson.Marshal(fc); return bsonTreeTok(bb, berr) }))
 	if berr == nil && bb != nil {
 		f3 := &geojson.FeatureCollection{}
-		ub := guard(func() string { err := bson.Unmarshal(bb, f3); return fcOutcome(f3, err) })
+		ub := gp("ub", func() string { err := bson.Unmarshal(bb, f3); return fcOutcome(f3, err) })
 		rm := "na"
 		if strings.HasPrefix(ub, "ok") {
-			rm = guard(func() string { b, err := bson.Marshal(f3); return bsonSame(bb, b, err) })
+			rm = gp("brm", func() string { b, err := bson.Marshal(f3); return bsonSame(bb, b, err) })
 		}
 		parts = append(parts, ub, rm)
 	} else {
@@ -1040,6 +1042,12 @@ func runC02(op string, in []string) string {
 		return c02Hand(r.hand())
 	case "seq":
 		return runC02Seq(in)
+	case "hook":
+		return c02HookOp(in)
+	case "own":
+		return c02OwnOp(in)
+	case "val":
+		return c02ValOp(in)
 	}
 	return "badop"
 }
@@ -1461,6 +1469,8 @@ func genC02(c *Ctx) {
 		}
 		// round 2: hand-built geometries, decode sequences into one receiver (c02_seq.go)
 		genC02Round2Fixed(c)
+		// white-box round: hooks installed, buffer ownership, every form of holding a value (c02_wb.go)
+		genC02WBFixed(c)
 	}
 	hostile := func(input string) { c.Case("hostile", input) }
 	genGeoJSONHostileCorpus(c, hostile)
@@ -1485,6 +1495,7 @@ func genC02(c *Ctx) {
 			c.Case("hand", c02GenHand(c, 0))
 		}
 		c.Case("seq", c02GenSeq(c))
+		genC02WB(c, k)
 		if k%16 == 0 {
 			b := orb.Bound{Min: orb.Point{coord(r, CoordFloat), coord(r, CoordFloat)}, Max: orb.Point{coord(r, CoordFloat), coord(r, CoordFloat)}}
 			c.Case("bbox", c02BBox(c)+" "+fb(b.Min[0])+" "+fb(b.Min[1])+" "+fb(b.Max[0])+" "+fb(b.Max[1]))
